@@ -455,6 +455,11 @@ class Engine:
                     if off == k:
                         return SV(((v.t + (1 << 31)) % m) - (1 << 31), -(1 << 31), (1 << 31) - 1, taint=v.taint)
                     return SV(v.t / m, v.lo // m, v.hi // m, taint=v.taint)
+                if isinstance(cc[0], SV) and not z3.is_bool(cc[0].t) and t.k == 'int' and off == k and nb in (1, 2) and cc[1] in (4, 8):
+                    # low byte(s) of an integer that packs several fields (e.g. a {bool, int} struct returned in a register):
+                    # two's complement low part of the mathematical value
+                    v = cc[0]; m = 1 << (8 * nb); h = m >> 1
+                    return SV(((v.t + h) % m) - h, -h, h - 1, taint=v.taint)
                 if isinstance(cc[0], int) and not isinstance(cc[0], bool) and k <= off and off + nb <= k + cc[1]:
                     raw = cc[0] & ((1 << (cc[1] * 8)) - 1)
                     v = sgn(raw >> (8 * (off - k)), nb * 8)
